@@ -14,7 +14,10 @@ from ..oracles import volterra_ref as vr
 
 RULE = ("media: gens_c11 tensors (generic SPD 6x6 with eigenvalues in [1,500], admissible constant sets of the seven crystal "
         "systems in standard setting, the same in rotated axes) for the Stroh solver, exactly isotropic (E in [1,600], nu in "
-        "[0,0.495]) for the closed form, in GPa-like or eV/A^3-like numbers; solver Stroh / IsotropicVolterraDislocation / "
+        "[0,0.495]) and NEARLY isotropic (cubic / hexagonal / tetragonal / orthorhombic constants, any axis permutation, every "
+        "constant within 1e-7 .. 0.97e-4 of the Hill-average isotropic tensor = inside the isotropic class's acceptance band, "
+        "or 1.05 .. 5 times the band = outside) for the closed form and the dispatcher, in GPa-like or eV/A^3-like numbers; "
+        "solver Stroh / IsotropicVolterraDislocation / "
         "solve_volterra_dislocation; Burgers vector screw, edge, mixed (in the slip plane for the isotropic solver), along "
         "the plane normal or general, |components| in [0.5,8]; orientation none, a proper rotation given as transform= or "
         "axes= with non-unit rows, or Miller line direction + slip plane (h u + k v + l w = 0, small integers, 3 or 4 "
@@ -32,13 +35,19 @@ ASSUMPTIONS = ["numpy linear algebra (eig, inv, einsum) is correct",
                "ElasticConstants.transform / the Cij setter zero entries below 1e-8 / 1e-9 of the largest and the solver "
                "zeroes Burgers components below 1e-8 of the largest (documented tol): no comparison against my own rotated "
                "tensor is tighter than 3e-8 max|C|",
+               "the isotropic class accepts C exactly when numpy.allclose(C.Cij, C.normalized_as('isotropic').Cij, atol=0, "
+               "rtol=1e-4) (its solve()), solves the medium normalized_as('isotropic') (Hill bulk and shear moduli: rotation "
+               "invariants) and reports that medium as .C: for an accepted, not exactly isotropic input the header, Hooke's "
+               "law, the closed forms and the covariance are judged against the Hill-average medium, not loosened; inputs "
+               "within 2 % of the band edge may be accepted or refused",
                "Stroh solutions whose three roots p (Im p > 0, recomputed here from the companion matrix) come closer than "
                "gap get every rounding tolerance multiplied by 1 + 1/gap (near-degenerate eigenvectors); problems the "
                "solver refuses with the ValueError of its self-checks are counted, not judged, as long as two roots are closer "
                "than 0.25 (largest separation among refusals on the unchanged tree: 1.6e-2); a refusal of well separated "
                "roots is reported as a violation, a refusal share above 12 % as a harness error"]
 LEVEL_TEXT = ("Generated-input exploration of Stroh, IsotropicVolterraDislocation and solve_volterra_dislocation over "
-              "positive-definite media of every crystal class, all Burgers characters, orientations by rotation or Miller "
+              "positive-definite media of every crystal class (and, for the isotropic class and the dispatcher, media isotropic "
+              "only to within the class's 1e-4 acceptance band), all Burgers characters, orientations by rotation or Miller "
               "indices, all m/n choices and field points off the line: Burgers jump and continuity, strain = sym grad u and "
               "div sigma = 0 by 4th-order differences, Hooke's law, 1/r scaling, energy tensor against the Barnett-Lothe "
               "integral and the slip-plane traction, covariance, and the isotropic limit against textbook closed forms.")
@@ -100,15 +109,32 @@ def setup(prob):
     S.C6s = (C6s + C6s.T) / 2                               # medium in the solution frame
     S.C4s = el.voigt_to_tensor(S.C6s)
     S.cmax = float(max(np.abs(S.C6).max(), np.abs(S.C6s).max()))
-    S.iso = g.is_isotropic(prob)
-    if S.iso:
+    S.exact = S.iso = g.is_isotropic(prob)
+    S.near = g.is_neariso(prob)
+    S.dev = 0.0
+    if S.exact:
         S.roots, S.gap, S.amp = [1j, 1j, 1j], 0.0, 1.0      # closed form: no eigenvectors involved
         mo = el.isotropic_moduli(prob['C']['C']['E'], prob['C']['C']['nu'])
         S.mu, S.nu = mo['mu'] * prob['cscale'], mo['nu']
     else:
-        S.roots, S.gap = vr.sextic_roots(S.C4s, S.m, S.n)
-        S.amp = 1.0 + 1.0 / max(S.gap, 1e-6)
+        S.dev = g.iso_deviation(S.C6)[0]
+        if prob['solver'] == 'iso':
+            to_iso_mode(S)                                  # the closed-form class is asked directly
+        else:
+            S.roots, S.gap = vr.sextic_roots(S.C4s, S.m, S.n)
+            S.amp = 1.0 + 1.0 / max(S.gap, 1e-6)
     return S
+
+
+def to_iso_mode(S):
+    """the isotropic class answers for a medium that is not exactly isotropic: what it solves, and reports as .C, is the
+    isotropic tensor of the Hill bulk and shear moduli of the input (rotation invariants: the same tensor in every frame)"""
+    _, N, K, G = g.iso_deviation(S.C6)
+    S.mu, S.nu = G, (3 * K - 2 * G) / (2 * (3 * K + G))
+    S.C6s = N
+    S.C4s = el.voigt_to_tensor(N)
+    S.roots, S.gap, S.amp = [1j, 1j, 1j], 0.0, 1.0
+    S.iso = True
 
 
 def _conv(aslist):
@@ -149,8 +175,12 @@ def solver_args(prob, S):
     return conv(b), kw
 
 
-def call_solver(solver, C6, b, kw, iso_medium, gap=None):
-    """returns the solution object, or None for a documented refusal"""
+BAND_LO, BAND_HI = 0.98e-4, 1.02e-4     # my deviation and the solver's agree to rounding; 2 % leaves the edge itself open
+
+
+def call_solver(solver, C6, b, kw, iso_medium, gap=None, dev=0.0):
+    """returns the solution object, or None for a documented refusal.  iso_medium: exactly isotropic; dev: iso_deviation of
+    the medium (0 for exactly isotropic): the isotropic class has to take every medium with dev <= 1e-4"""
     import atomman as am
     from atomman.defect import Stroh, IsotropicVolterraDislocation, solve_volterra_dislocation
     fn = {'stroh': Stroh, 'iso': IsotropicVolterraDislocation, 'auto': solve_volterra_dislocation}[solver]
@@ -159,7 +189,10 @@ def call_solver(solver, C6, b, kw, iso_medium, gap=None):
         return fn(C, b, **kw)
     except ValueError as e:
         msg = str(e)
-        refused = (solver == 'stroh' and msg in STROH_REFUSALS) or (solver == 'auto' and not iso_medium and msg == ISO_REFUSAL)
+        if solver == 'iso' and msg == ISO_REFUSAL and dev > BAND_LO:
+            return None                                     # outside the band of the isotropic class
+        refused = (solver == 'stroh' and msg in STROH_REFUSALS) or (solver == 'auto' and not iso_medium and msg == ISO_REFUSAL
+                                                                    and dev > BAND_LO)
         if not refused:
             raise
         # Stroh's self-checks failed (for 'auto': and the isotropic fallback refuses the anisotropic medium).  That is the
@@ -173,22 +206,54 @@ def call_solver(solver, C6, b, kw, iso_medium, gap=None):
 
 def solve(prob, S):
     b, kw = solver_args(prob, S)
-    return call_solver(prob['solver'], S.C6, b, kw, S.iso, None if S.iso else S.gap)
+    return call_solver(prob['solver'], S.C6, b, kw, S.exact, None if S.iso else S.gap, S.dev)
 
 
-def fell_back(sol, S, prob):
-    """solve_volterra_dislocation answered a medium drawn as a crystal with the isotropic class: legitimate exactly when the
-    medium is isotropic within that class's 1e-4 (the constant sets are shrunk toward isotropy until admissible and can
-    arrive there); such cases are counted and not judged further"""
-    if prob['solver'] != 'auto' or S.iso or type(sol).__name__ != 'IsotropicVolterraDislocation':
-        return False
-    v = el.vrh(S.C6)
-    K, G = v[('bulk', 'Hill')], v[('shear', 'Hill')]
-    proj = el.isotropic_voigt(K - 2 * G / 3, G)
-    dev = float(np.abs(S.C6 - proj).max())
-    require(dev <= 2e-4 * S.cmax, lambda: 'solve_volterra_dislocation returned the isotropic class for a medium that is %.3g (relative) '
-            'away from its isotropic average' % (dev / S.cmax))
-    return True
+def begin(prob):
+    """setup, solver call, classification.  Returns (S, sol, labels, judge); judge False: refusal, or an answer outside the
+    property's domain (counted only).
+    solve_volterra_dislocation answers a medium that is not exactly isotropic with Stroh when Stroh's self-checks pass and
+    with the isotropic class otherwise - legitimate exactly when the medium is inside that class's band; the case is then
+    judged like a direct call of the class (Hill-average medium), provided the Burgers vector lies in the slip plane (the
+    class is documented for that only: crystal media are drawn with general Burgers vectors)."""
+    S = setup(prob)
+    sol = solve(prob, S)
+    judge = sol is not None
+    extra = set()
+    if judge and prob['solver'] == 'auto' and not S.exact and type(sol).__name__ == 'IsotropicVolterraDislocation':
+        require(S.dev <= BAND_HI, lambda: 'solve_volterra_dislocation returned the isotropic class for a medium whose constants are '
+                '%.3g (relative) away from their isotropic average' % S.dev)
+        extra.add('auto_fallback')
+        if prob['bsol'][1] != 0.0:
+            judge = False
+        else:
+            to_iso_mode(S)
+    if judge and prob['solver'] == 'iso' and not S.exact:
+        require(S.dev <= BAND_HI, lambda: 'the isotropic class accepted a medium whose constants are %.3g (relative) away from their '
+                'isotropic average (its band is 1e-4)' % S.dev)
+    labels = base_labels(prob, S, sol) | extra
+    if sol is None and S.iso and not S.exact:
+        labels = (labels - {'refusal'}) | {'refusal_outside_band'}
+    if judge and S.iso and not S.exact and S.dev == g.BAND:
+        # an entry of the Hill-average tensor sits on the Cij setter's zeroing floor (see gens_c12.iso_deviation)
+        labels.add('neariso_on_zeroing_floor')
+        judge = False
+    if judge and S.near and not S.iso:
+        # the dispatcher's Stroh attempt passed its self-checks on a nearly isotropic medium.  The isotropic limit of the
+        # sextic eigenproblem is DEFECTIVE (triple root p = i with a Jordan block), the roots of the perturbed problem are
+        # sqrt(anisotropy) apart and the eigenvectors carry errors of order sqrt(eps)/gap ~ 1e-6..1e-4 (unchanged tree: K_tensor
+        # 1.1e-7 from the Barnett-Lothe integral at gap 1.4e-2, replay C12-energy-3), outside "away from eigenvalue
+        # degeneracy" and outside the (1 + 1/gap) model of the rounding tolerances, which fits semisimple double roots.
+        # Header only; the distance from the closed form is judged in iso_limit with its stated noise floor.
+        check_header(sol, S, prob)
+        labels.add('stroh_on_neariso')
+        judge = False
+    if not judge:
+        labels.discard('nt')
+    elif not S.exact and S.iso:
+        labels.add('closed_form_on_neariso')
+        labels.add('neariso_via_' + prob['solver'])
+    return S, sol, labels, judge
 
 
 def check_header(sol, S, prob):
@@ -206,7 +271,12 @@ def check_header(sol, S, prob):
     require(bg.shape == (3,), lambda: '.burgers has shape %r' % (bg.shape,))
     close(np.abs(bg - S.b).max(), 2e-8 * S.bn, 'hdr_b', lambda: '.burgers = %r, expected transform . b = %r' % (bg, S.b))
     Cg = np.asarray(sol.C.Cij, dtype=float)
-    close(np.abs(Cg - S.C6s).max(), TOL_C * S.cmax, 'hdr_C', lambda: '.C.Cij against my own rotated tensor')
+    close(np.abs(Cg - S.C6s).max(), TOL_C * S.cmax, 'hdr_C',
+          lambda: '.C.Cij against my own %s' % ('rotated tensor' if S.exact or not S.iso else 'isotropic (Hill) normalisation of the input'))
+    if S.iso:
+        for nm, mine in (('mu', S.mu), ('nu', S.nu)):
+            got = float(getattr(sol, nm))
+            close(abs(got - mine), 1e-10 * (S.mu if nm == 'mu' else 1.0), 'hdr_' + nm, lambda: '.%s = %r, Hill value of the medium %r' % (nm, got, mine))
     return Cg
 
 
@@ -276,13 +346,9 @@ def jump_cases(draw):
 
 def oracle_jump(case):
     prob = case['prob']
-    S = setup(prob)
-    sol = solve(prob, S)
-    labels = base_labels(prob, S, sol)
-    if sol is None:
+    S, sol, labels, judge = begin(prob)
+    if not judge:
         return labels
-    if fell_back(sol, S, prob):
-        return (labels - {'nt'}) | {'auto_fallback'}
     check_header(sol, S, prob)
     pl = case['ptlist']
     # character angle: angle between the Burgers vector and the line direction
@@ -365,13 +431,9 @@ def fd_tols(S, loc):
 
 def oracle_kinematics(case):
     prob = case['prob']
-    S = setup(prob)
-    sol = solve(prob, S)
-    labels = base_labels(prob, S, sol)
-    if sol is None:
+    S, sol, labels, judge = begin(prob)
+    if not judge:
         return labels
-    if fell_back(sol, S, prob):
-        return (labels - {'nt'}) | {'auto_fallback'}
     Cg = check_header(sol, S, prob)
     C4 = el.voigt_to_tensor(Cg)
     pl = case['ptlist']
@@ -445,13 +507,9 @@ def barnett_lothe_K(S):
 
 def oracle_energy(case):
     prob = case['prob']
-    S = setup(prob)
-    sol = solve(prob, S)
-    labels = base_labels(prob, S, sol)
-    if sol is None:
+    S, sol, labels, judge = begin(prob)
+    if not judge:
         return labels
-    if fell_back(sol, S, prob):
-        return (labels - {'nt'}) | {'auto_fallback'}
     check_header(sol, S, prob)
     K = np.asarray(sol.K_tensor)
     require(K.shape == (3, 3) and K.dtype.kind == 'f' and bool(np.all(np.isfinite(K))), lambda: 'K_tensor is not a real finite 3x3 array: %r' % (K,))
@@ -498,6 +556,9 @@ def oracle_energy(case):
             if str(e) in STROH_REFUSALS and not S.iso and S.gap < GAP_REFUSAL:
                 labels.add('resolve_refused')
                 return labels
+            if str(e) == ISO_REFUSAL and S.iso and S.dev > BAND_LO:        # at the edge of the band (2 C: same deviation)
+                labels.add('resolve_refused')
+                return labels
             raise
         K2 = np.asarray(sol.K_tensor, dtype=float)
         close(np.abs(K2 - 2 * K).max(), 1e-9 * S.amp * kmax, 'resolve_K', lambda: 'after solve(2 C, -1.5 b) on the same object K_tensor is\n%r\nexpected twice\n%r' % (K2, K))
@@ -515,11 +576,30 @@ def oracle_energy(case):
 
 _prob_cov = g.problems()
 _rot = g11.rot_specs()
+_qc = st.integers(0, 23)
 
 
 @st.composite
 def cov_cases(draw):
-    return {'prob': draw(_prob_cov), 'Q': draw(_rot), 'R': draw(_rot), 'pts': draw(g.local_points(2, 4))}
+    return {'prob': draw(_prob_cov), 'Q': draw(_rot), 'R': draw(_rot), 'Qc': draw(_qc), 'pts': draw(g.local_points(2, 4))}
+
+
+def _cubic_group():
+    """the 24 proper rotations that map the Cartesian axes onto each other (signed permutation matrices, exact)"""
+    out = []
+    for p in ((0, 1, 2), (1, 2, 0), (2, 0, 1), (0, 2, 1), (2, 1, 0), (1, 0, 2)):
+        for sx in (1.0, -1.0):
+            for sy in (1.0, -1.0):
+                for sz in (1.0, -1.0):
+                    M = np.zeros((3, 3))
+                    for i, sg in enumerate((sx, sy, sz)):
+                        M[i, p[i]] = sg
+                    if np.linalg.det(M) > 0:
+                        out.append(M)
+    return out
+
+
+CUBIC_GROUP = _cubic_group()
 
 
 def _floor_band(C6):
@@ -529,13 +609,9 @@ def _floor_band(C6):
 
 def oracle_covariance(case):
     prob = case['prob']
-    S = setup(prob)
-    sol = solve(prob, S)
-    labels = base_labels(prob, S, sol)
-    if sol is None:
+    S, sol, labels, judge = begin(prob)
+    if not judge:
         return labels
-    if fell_back(sol, S, prob):
-        return (labels - {'nt'}) | {'auto_fallback'}
     check_header(sol, S, prob)
     solver = 'iso' if S.iso else 'stroh'
     P = positions(S, case['pts'])
@@ -561,13 +637,20 @@ def oracle_covariance(case):
 
     # (a) rotate the crystal by Q and the laboratory by R:  C' = Q.C, b' = Q b, transform' = R T Q^t, m' = R m, n' = R n
     Q, R = el.rotation_matrix(*case['Q']), el.rotation_matrix(*case['R'])
+    if S.iso and not S.exact:
+        # the closed-form class on a nearly isotropic crystal: its acceptance test wants the entries that vanish for an
+        # isotropic medium to vanish exactly (atol = 0), so the crystal expressed in generally rotated axes is outside the
+        # accepted domain; the rotations of the crystal that stay inside are the 24 that permute the axes.  The orientation of
+        # the crystal relative to the dislocation (transform' = R T Q^t) is general all the same.
+        Q = CUBIC_GROUP[case.get('Qc', 0)]
+        labels.add('Q_axis_permutation')
     C6q = el.rotate_voigt(S.C6, Q)
     C6q = (C6q + C6q.T) / 2
     m2, n2 = R @ S.m, R @ S.n
     m2 = m2 / np.linalg.norm(m2)
     n2 = n2 - m2 * (m2 @ n2)
     n2 = n2 / np.linalg.norm(n2)
-    other = call_solver(solver, C6q, Q @ S.b_cart, {'transform': R @ S.T @ Q.T, 'm': m2, 'n': n2}, S.iso, None if S.iso else S.gap)
+    other = call_solver(solver, C6q, Q @ S.b_cart, {'transform': R @ S.T @ Q.T, 'm': m2, 'n': n2}, S.exact, None if S.iso else S.gap, S.dev)
     if other is None:
         labels.add('rotated_refused')
     else:
@@ -581,12 +664,21 @@ def oracle_covariance(case):
         labels.add('rotated')
         if el.rotation_angle_deg(R) > 5 and el.rotation_angle_deg(Q) > 5:
             labels.add('both_generic')
+        if S.iso and not S.exact:
+            labels.add('rotated_neariso')
     # (b) orientation by Miller indices = orientation by the corresponding transform with a Cartesian Burgers vector
     if prob['orient']['kind'] == 'miller':
         _, kw = solver_args(prob, S)
         kw2 = {k: v for k, v in kw.items() if k in ('m', 'n')}
         kw2['transform'] = S.T
-        other = call_solver(solver, S.C6, S.b_cart, kw2, S.iso)
+        other = call_solver(solver, S.C6, S.b_cart, kw2, S.exact, None if S.iso else S.gap, S.dev)
+        if other is None and not S.iso:
+            # Stroh with nearly coincident roots (call_solver has verified gap < GAP_REFUSAL; nearly isotropic media answered
+            # by the dispatcher's Stroh attempt are the typical member): the self-checks sit on their threshold and the two
+            # spellings differ by rounding in transform (seen on the unchanged tree: hexagonal medium, gap 1.7e-3,
+            # replay C12-covariance-7) - a refusal the ASSUMPTIONS count and do not judge
+            labels.add('miller_vs_transform_refused')
+            return labels
         require(other is not None, 'the problem is accepted with Miller indices but refused with the corresponding transform')
         compare(other, np.eye(3), 'Miller indices replaced by the corresponding transform', _floor_band(S.C6s) or _floor_band(S.b))
         labels.add('miller_vs_transform')
@@ -629,27 +721,51 @@ def oracle_iso_limit(case):
         e['K'] = float(np.abs(np.asarray(sol.K_tensor, dtype=float) - Kiso).max()) / Ke
         return e
 
-    # (a) the closed-form class and the dispatcher on the exactly isotropic medium
+    # the isotropic medium: the one drawn, or (nearly isotropic input) its Hill average, which is what the closed-form class
+    # solves; isotropic, hence the same matrix in the crystal's and in the solution's frame
+    Ciso = S.C6 if S.exact else S.C6s
+    lmin = float(np.linalg.eigvalsh(Ciso)[0])
+    if not S.exact and S.dev == g.BAND:
+        labels.add('neariso_on_zeroing_floor')              # see begin()
+        return labels
+    # (a) the closed-form class and the dispatcher on the (exactly or nearly) isotropic medium
     for solver in ('iso', 'auto'):
-        sol = call_solver(solver, S.C6, b, kw, True)
+        sol = call_solver(solver, S.C6, b, kw, S.exact, None, S.dev)
         p2 = dict(prob, solver=solver)
+        if sol is None:
+            labels.add('outside_band_refused_by_' + solver)
+            continue
+        if type(sol).__name__ == 'Stroh' and solver == 'auto' and not S.exact:
+            # the dispatcher's Stroh attempt passed its self-checks: the answer is the anisotropic solution of the input
+            # medium, at the distance t = |C - C_iso|_2 / lambda_min from the isotropic one: same bound as in (b), plus
+            # the noise floor of the nearly defective eigenproblem stated there
+            S2 = setup(p2)
+            check_header(sol, S2, p2)
+            t = float(np.linalg.norm(S.C6 - Ciso, 2)) / lmin
+            for nm, v in errors(sol).items():
+                close(v, B_LIMIT * t + 3e-5, 'near_' + nm, lambda: 'dispatcher (Stroh) on a medium %.3g from isotropy: %s is %.3g (relative) away from the isotropic closed form' % (t, nm, v))
+            labels.add('auto_stroh_on_neariso')
+            continue
+        require(S.dev <= BAND_HI, lambda: '%s solver accepted a medium whose constants are %.3g (relative) away from their isotropic average' % (solver, S.dev))
         check_header(sol, S, p2)
         e = errors(sol)
         # rounding only: x, y, r^2 each to a few eps, amplified by r/rmin <= 150 in the displacement differences
         for nm, tol in (('strain', 1e-11), ('stress', 1e-11), ('disp', 1e-11), ('K', TOL_K)):
             close(e[nm], tol, 'iso_' + nm, lambda: '%s solver on the isotropic medium: %s differs from the Hirth-Lothe closed form (relative)' % (solver, nm))
+        if not S.exact:
+            labels.add('closed_form_on_neariso')
+            labels.add('neariso_via_' + solver)
     # (b) Stroh on C_iso + t D, |D|_2 = lambda_min(C_iso): linear approach to the closed form
     Ca = g11.cij(case['aniso'])
-    D = Ca / np.abs(Ca).max() * S.cmax - S.C6
+    D = Ca / np.abs(Ca).max() * S.cmax - Ciso
     nD = float(np.linalg.norm(D, 2))
-    lmin = float(np.linalg.eigvalsh(S.C6)[0])
     if nD < 1e-3 * S.cmax:
         labels.add('perturbation_isotropic')
         return labels
     D = D / nD * lmin
     errs = {}
     for t in (1e-2, 1e-3):
-        sol = call_solver('stroh', S.C6 + t * D, b, kw, False)
+        sol = call_solver('stroh', Ciso + t * D, b, kw, False)
         if sol is None:
             labels.add('refused_t=%g' % t)
             continue
@@ -679,28 +795,35 @@ CLAUSES = [
     Clause('jump', oracle_jump, jump_cases, quick=6000, thorough=90000,
            min_share=dict(_ACC, nt=0.2, solver_stroh=0.24, solver_iso=0.12, solver_auto=0.13, orient_miller=0.19, mn_vec=0.27,
                           mn_str=0.11, mn_str_and_vector=0.04, ray_on_axis=0.27, b_tiny_component=0.025, int_positions=0.06,
-                          ptlist=0.19, four_index=0.01, via_axes=0.06),
+                          ptlist=0.19, four_index=0.01, via_axes=0.06, closed_form_on_neariso=0.045, neariso_via_auto=0.008,
+                          neariso_via_iso=0.034, neariso_edge=0.015),
            max_share=_REF,
            desc='Burgers vector = displacement jump across the cut half-plane (limit at +-1e-9 r), continuity across every '
                 'other ray, invariance along the line, single point = array row = integer-typed positions, character angle, '
                 'header (m, n, xi, transform, burgers, C) against my own numbers'),
     Clause('kinematics', oracle_kinematics, kin_cases, quick=8000, thorough=120000,
            min_share=dict(_ACC, nt=0.2, solver_stroh=0.24, solver_iso=0.13, orient_miller=0.18, pt_on_axis=0.24, ptlist=0.2,
-                          b_general=0.035, b_climb=0.013, npts3=0.15),
+                          b_general=0.035, b_climb=0.013, npts3=0.15, closed_form_on_neariso=0.045, neariso_via_auto=0.008,
+                          neariso_via_iso=0.03, neariso_edge=0.02),
            max_share=_REF,
            desc='strain = sym grad u and div stress = 0 by 4th-order central differences (h = 1e-4 r), stress = C:strain, '
                 'symmetry, homogeneity of degree -1'),
     Clause('energy', oracle_energy, energy_cases, quick=5000, thorough=75000,
-           min_share=dict(_ACC, nt=0.18, BL=0.8, resolved=0.18, solver_stroh=0.26, iso_medium=0.16, mn_vec=0.26), max_share=_REF,
+           min_share=dict(_ACC, nt=0.18, BL=0.8, resolved=0.18, solver_stroh=0.26, iso_medium=0.16, mn_vec=0.26,
+                          closed_form_on_neariso=0.045, neariso_via_auto=0.008, neariso_via_iso=0.035, neariso_edge=0.025),
+           max_share=_REF,
            desc='K_tensor real symmetric positive definite, equal to the Barnett-Lothe angular integral (and to the closed '
                 'form for isotropic media); K_coeff, preln; slip-plane traction = K.b/(2 pi x)'),
     Clause('covariance', oracle_covariance, cov_cases, quick=4000, thorough=60000,
-           min_share=dict(_ACC, nt=0.22, rotated=0.8, both_generic=0.26, miller_vs_transform=0.2, aniso_medium=0.3),
+           min_share=dict(_ACC, nt=0.22, rotated=0.8, both_generic=0.26, miller_vs_transform=0.2, aniso_medium=0.3,
+                          closed_form_on_neariso=0.055, rotated_neariso=0.055, neariso_via_auto=0.006, neariso_edge=0.025),
            max_share=_REF,
            desc='rotating crystal (C, b) by Q and laboratory (transform, m, n, points) by R rotates u, strain, stress, K; '
                 'Miller-index orientation = the corresponding transform'),
     Clause('iso_limit', oracle_iso_limit, limit_cases, quick=2500, thorough=37500,
-           min_share={'nt': 0.22, 'both_t': 0.45, 'mn_vec': 0.28, 'orient_miller': 0.19},
-           desc='isotropic class and dispatcher against Hirth-Lothe closed forms; Stroh on C_iso + t D approaches them '
+           min_share={'nt': 0.22, 'both_t': 0.45, 'mn_vec': 0.28, 'orient_miller': 0.19, 'closed_form_on_neariso': 0.16,
+                      'neariso_via_auto': 0.06, 'auto_stroh_on_neariso': 0.11, 'neariso_edge': 0.06, 'iso_medium': 0.27},
+           desc='isotropic class and dispatcher, on exactly and on nearly isotropic media (inside the acceptance band of the '
+                'class), against Hirth-Lothe closed forms of the Hill-average medium; Stroh on C_iso + t D approaches them '
                 'linearly (t = 1e-2, 1e-3)'),
 ]
